@@ -1105,7 +1105,7 @@ impl<'a> Serializer<'a> {
 
     /// Returns whether or not text was written
     fn visit_stmt(&mut self, stmt: CssStmt) -> SassResult<bool> {
-        if stmt.is_invisible() {
+        if stmt.is_invisible(self.options.is_compressed()) {
             return Ok(false);
         }
 
@@ -1147,7 +1147,11 @@ impl<'a> Serializer<'a> {
                 if !unknown_at_rule.has_body {
                     debug_assert!(unknown_at_rule.body.is_empty());
                     return Ok(true);
-                } else if unknown_at_rule.body.iter().all(CssStmt::is_invisible) {
+                } else if unknown_at_rule
+                    .body
+                    .iter()
+                    .all(|stmt| stmt.is_invisible(self.options.is_compressed()))
+                {
                     self.buffer.extend_from_slice(b" {}");
                     return Ok(true);
                 }
